@@ -80,7 +80,7 @@ def run(tier, seed):
             if k not in seen:
                 seen.add(k); uniq.append(f)
         faults = uniq
-        budget = 45000 if tier == "quick" else 600000
+        budget = 45000 if tier == "quick" else 150000
         plans = []
         states = list(PREFIX)
         # every fault in the state that consumes that kind of PDU + a rotating other state; all states in thorough
